@@ -258,8 +258,8 @@ func main() {
 		e, _ := strconv.ParseUint(args[1], 10, 64)
 		cases, delivers := 0, 0
 		shapes := map[string]bool{}
-		_, err := vh.EachExport(args[0], func(idx int, doc []byte) error {
-			if !vh.Mine(idx, i, n, from, only) || vh.TooMany() {
+		_, err := vh.EachExportIf(args[0], func(idx int) bool { return vh.Mine(idx, i, n, from, only) }, func(idx int, doc []byte) error {
+			if vh.TooMany() {
 				return nil
 			}
 			var st []step
